@@ -111,8 +111,9 @@ Section Tree.
   Variable leaf_run : St -> L -> option St.              (* the leaf's msg-server handler *)
   Variable granted : St -> addr -> addr -> mkind -> bool. (* authz grant (granter, grantee, type) present *)
   Variable wasm_reflects : addr -> addr -> bool.          (* contract logic: does `contract` dispatch for `sender` *)
-  Variable wasm_admits : tree -> bool.                    (* extra checks of wasmext.handleSdkMessage on one dispatched message *)
+  Variable wasm_admits : addr -> tree -> bool.            (* checks of wasmext.handleSdkMessage (contract, dispatched message): signer, refused types, … *)
   Variable gov_addr : addr.
+  Variable ica_acct_ok : addr -> bool.                    (* the address is a registered interchain account *)
   Variable ica_allow : mkind -> bool.                     (* ICA host allow-list *)
 
   (** sdk.Msg.ValidateBasic: MsgExec and MsgSubmitProposal validate the messages they carry;
@@ -136,7 +137,7 @@ Section Tree.
     | Exec g cs => seq_opt run (fun s c => authz_ok s g c) cs s
     | Wasm snd ctr cs =>
         if wasm_reflects ctr snd && negb (Nat.eqb (length cs) 0)
-        then seq_opt run (fun _ c => basic c && (signer c =? ctr) && wasm_admits c) cs s
+        then seq_opt run (fun _ c => basic c && wasm_admits ctr c) cs s
         else None
     | Gov _ cs =>
         (* Keeper.SubmitProposal: messages validated, signer must be the gov account; nothing runs *)
@@ -144,10 +145,12 @@ Section Tree.
     | Ica _ acct cs =>
         (* icahost executeTx runs the packet's messages on a cache context; a failure only yields an
            error acknowledgement, the relayer's transaction still succeeds *)
-        match seq_opt run (fun _ c => ica_allow (kind_of c) && (signer c =? acct)) cs s with
-        | Some s' => Some s'
-        | None => Some s
-        end
+        if ica_acct_ok acct then
+          match seq_opt run (fun _ c => ica_allow (kind_of c) && (signer c =? acct)) cs s with
+          | Some s' => Some s'
+          | None => Some s
+          end
+        else Some s
     end.
 
   (** a list of top-level messages, as baseapp.runMsgs does *)
